@@ -32,6 +32,7 @@ const (
 	SiteHarness = -10
 )
 
+//go:norace
 func (m *Mutex) Lock() {
 	s := S
 	if s == nil {
@@ -55,6 +56,7 @@ func (m *Mutex) Lock() {
 	raceAcquire(unsafe.Pointer(m))
 }
 
+//go:norace
 func (m *Mutex) TryLock() bool {
 	s := S
 	if s != nil {
@@ -75,6 +77,7 @@ func (m *Mutex) TryLock() bool {
 	return true
 }
 
+//go:norace
 func (m *Mutex) Unlock() {
 	if !m.held {
 		panic("sync: unlock of unlocked mutex")
@@ -103,6 +106,7 @@ type RWMutex struct {
 	waiters []*Task
 }
 
+//go:norace
 func (m *RWMutex) Lock() {
 	s := S
 	if s == nil {
@@ -120,6 +124,7 @@ func (m *RWMutex) Lock() {
 	raceAcquire(unsafe.Pointer(m))
 }
 
+//go:norace
 func (m *RWMutex) Unlock() {
 	if !m.writer {
 		panic("sync: Unlock of unlocked RWMutex")
@@ -130,6 +135,7 @@ func (m *RWMutex) Unlock() {
 	m.wakeAll()
 }
 
+//go:norace
 func (m *RWMutex) RLock() {
 	s := S
 	if s == nil {
@@ -146,6 +152,7 @@ func (m *RWMutex) RLock() {
 	raceAcquire(unsafe.Pointer(m))
 }
 
+//go:norace
 func (m *RWMutex) RUnlock() {
 	if m.readers <= 0 {
 		panic("sync: RUnlock of unlocked RWMutex")
@@ -157,6 +164,7 @@ func (m *RWMutex) RUnlock() {
 	}
 }
 
+//go:norace
 func (m *RWMutex) wakeAll() {
 	s := S
 	if s == nil || s.poisoned {
@@ -169,11 +177,14 @@ func (m *RWMutex) wakeAll() {
 	}
 }
 
+//go:norace
 func (m *RWMutex) RLocker() Locker { return (*rlocker)(m) }
 
 type rlocker RWMutex
 
+//go:norace
 func (r *rlocker) Lock()   { (*RWMutex)(r).RLock() }
+//go:norace
 func (r *rlocker) Unlock() { (*RWMutex)(r).RUnlock() }
 
 // Cond may be copied before first use (the system under test does that).
@@ -182,8 +193,10 @@ type Cond struct {
 	waiters []*Task
 }
 
+//go:norace
 func NewCond(l Locker) *Cond { return &Cond{L: l} }
 
+//go:norace
 func (c *Cond) Wait() {
 	s := S
 	if s == nil {
@@ -196,6 +209,7 @@ func (c *Cond) Wait() {
 	c.L.Lock()
 }
 
+//go:norace
 func (c *Cond) Signal() {
 	s := S
 	if s == nil || s.poisoned {
@@ -211,6 +225,7 @@ func (c *Cond) Signal() {
 	s.makeReady(w)
 }
 
+//go:norace
 func (c *Cond) Broadcast() {
 	s := S
 	if s == nil || s.poisoned {
@@ -228,6 +243,7 @@ type WaitGroup struct {
 	waiters []*Task
 }
 
+//go:norace
 func (wg *WaitGroup) Add(delta int) {
 	if delta < 0 {
 		raceReleaseMerge(unsafe.Pointer(wg))
@@ -249,8 +265,10 @@ func (wg *WaitGroup) Add(delta int) {
 	}
 }
 
+//go:norace
 func (wg *WaitGroup) Done() { wg.Add(-1) }
 
+//go:norace
 func (wg *WaitGroup) Wait() {
 	s := S
 	if s == nil {
@@ -268,6 +286,7 @@ func (wg *WaitGroup) Wait() {
 	raceAcquire(unsafe.Pointer(wg))
 }
 
+//go:norace
 func (wg *WaitGroup) Go(f func()) {
 	wg.Add(1)
 	Go(SiteWG, func() {
@@ -281,6 +300,7 @@ type Once struct {
 	m    Mutex
 }
 
+//go:norace
 func (o *Once) Do(f func()) {
 	if S != nil {
 		Yield(SiteOnce)
@@ -309,6 +329,7 @@ type Event struct {
 	ch  chan struct{}
 }
 
+//go:norace
 func (e *Event) c() chan struct{} {
 	if e.ch == nil {
 		e.ch = make(chan struct{})
@@ -316,6 +337,7 @@ func (e *Event) c() chan struct{} {
 	return e.ch
 }
 
+//go:norace
 func (e *Event) Set() {
 	if e.set {
 		return
@@ -324,14 +346,18 @@ func (e *Event) Set() {
 	close(e.c())
 }
 
+//go:norace
 func (e *Event) IsSet() bool { return e.set }
 
 // Chan returns a channel that is closed once the event is set.
+//go:norace
 func (e *Event) Chan() <-chan struct{} { return e.c() }
 
+//go:norace
 func (e *Event) Wait() { Recv1(SiteHarness, e.Chan()) }
 
 // WaitTimeout waits up to d of fake time; it reports whether the event was set.
+//go:norace
 func (e *Event) WaitTimeout(d time.Duration) bool {
 	if e.set {
 		return true
@@ -348,6 +374,7 @@ type Sem struct {
 }
 
 // Post may be called from the controller (stable hook) as well as from tasks.
+//go:norace
 func (m *Sem) Post() {
 	m.n++
 	s := S
@@ -361,6 +388,7 @@ func (m *Sem) Post() {
 	}
 }
 
+//go:norace
 func (m *Sem) Wait() {
 	s := S
 	t := s.current()
